@@ -103,32 +103,63 @@ def run(run):
         enumerator(f, "get_calls_to_symbols", ["blocks", "jmps"])
         f = F.fn("get_callsites", mod="utils::symbol_utils")
         enumerator(f, "get_callsites", ["blocks", "jmps"])
+        from .lib import iterctx as IC
+
+        def iteration_of(f, pred, need_field=None):
+            """(verdict, detail): the single site satisfying pred in f (or a helper it calls) runs once per element of an
+            unrestricted iteration (over a collection read from field `need_field`), unconditionally, without early exits"""
+            found = [x for x in T.walk_deep(F, f["body"], 2) if pred(x)]
+            if len(found) != 1:
+                return None, "expected one site, found %d" % len(found)
+            site_ = found[0]
+            ctx = IC.contexts(F, f, site_)
+            if not ctx:
+                return None, "the site is not inside an iteration"
+            fields, adapt = IC.summary(F, f, ctx)
+            adapt = [a for a in adapt if a != "rev"]
+            own, chain = IC.owner(F, f, site_)
+            conds = []
+            for holder_fn, node in [(own, site_)] + ([(IC.owner(F, f, chain[0])[0], chain[0])] if chain else []):
+                for n_, cds in T.paths_to(holder_fn["body"], lambda y, node=node: y is node):
+                    conds += [cd for cd in cds if cd[0] in ("if", "letelse") or (cd[0] == "arm" and not (cd[1].get("ms", "").startswith("ForLoop") or T.is_call(T.peel(cd[1]["e"]), "next")))]
+            exits = [x for x in T.walk(own["body"]) if x.get("k") in ("Break", "Continue", "Return") and x.get("ds") not in ("ForLoop", "WhileLoop")]
+            if need_field is not None and need_field not in fields:
+                # or over a parameter that holds the functions (a map / slice of Term<Sub>)
+                from .lib import bindsrc as B
+                over_subs = any(x.get("k") in ("Var", "Upvar") and "Sub>" in (F.ty(x) or "") and ("BTreeMap" in (F.ty(x) or "") or "Vec" in (F.ty(x) or "") or "[" in (F.ty(x) or ""))
+                                for e_ in ctx for src, how in B.sources(F, B.bodies(F, f), e_) for x in T.walk(src))
+                if not over_subs:
+                    return False, "the iteration does not run over `%s` (fields read: %s)" % (need_field, sorted(fields)[:6])
+            if adapt:
+                return False, "the iteration is restricted by %s" % adapt
+            if conds:
+                return False, "the site is conditional"
+            if exits:
+                return False, "the iteration can be left early"
+            return True, ""
+
         # CWE676: all subs, one warning per call
         f = F.fn("get_calls", mod="checkers::cwe_676")
-        sy = S.Sym(F)
-        t = sy.term(f["body"])
-        fors = [x for x in S.subterms(t) if isinstance(x, tuple) and x and x[0] == "for"]
-        ok = len(fors) == 1 and is_call(fors[0][2], "values") and not any(is_call(y, EARLY + ("filter",)) for y in S.subterms(fors[0][2])) and any(is_call(y, "get_calls_to_symbols") for y in S.subterms(fors[0][3])) and any(is_call(y, ("append", "extend")) for y in S.subterms(fors[0][3]))
-        exits = [n for n in T.walk(f["body"]) if n.get("k") in ("Break", "Continue", "Return") and n.get("ds") != "ForLoop"]
-        run.check("R1", "cwe676|all-functions", ok and not exits, "CWE676 must collect the dangerous calls of every function", F.loc(f["body"]))
+        v, why = iteration_of(f, lambda x: T.is_call(x, "get_calls_to_symbols"), "subs")
+        if v is None:
+            run.undecided("R1", "cwe676|all-functions", why, F.loc(f["body"]))
+        else:
+            run.check("R1", "cwe676|all-functions", v, "CWE676 must collect the dangerous calls of every function (%s)" % why, F.loc(f["body"]))
         for mod, fname in (("checkers::cwe_676", "generate_cwe_warnings"), ("checkers::cwe_782", "generate_cwe_warning")):
             f = F.fn(fname, mod=mod)
-            sy = S.Sym(F)
-            t = sy.term(f["body"])
-            fors = [x for x in S.subterms(t) if isinstance(x, tuple) and x and x[0] == "for"]
-            ok = len(fors) == 1 and not any(is_call(y, EARLY + ("filter", "filter_map")) for y in S.subterms(fors[0][2]))
-            pushes = T.paths_to(f["body"], lambda x: T.is_call(x, "push"))
-            news = [x for x in S.subterms(t) if is_call(x, "new") and "CweWarning" in x[3]]
-            uncond = len(pushes) == 1 and not [c for c in pushes[0][1] if c[0] == "if"]
-            exits = [n for n in T.walk(f["body"]) if n.get("k") in ("Break", "Continue", "Return") and n.get("ds") != "ForLoop"]
-            run.check("R1", "%s|one-warning-per-call" % mod.split("::")[-1], ok and uncond and len(news) == 1 and not exits, "one warning must be generated for every recorded call (loop over all records, unconditional push)", F.loc(f["body"]))
+            v, why = iteration_of(f, lambda x: T.is_call(x, "new") and ("CweWarning" in (x.get("f") or "") or (x.get("is") or "").endswith("CweWarning")))
+            key = "%s|one-warning-per-call" % mod.split("::")[-1]
+            if v is None:
+                run.undecided("R1", key, why, F.loc(f["body"]))
+            else:
+                run.check("R1", key, v, "one warning must be generated for every recorded call (iteration over all records, unconditional) -- %s" % why, F.loc(f["body"]))
         # CWE782: every sub handled, all calls of a sub passed on
         f = F.fn("check_cwe", mod="checkers::cwe_782")
-        sy = S.Sym(F)
-        t = sy.term(f["body"])
-        allsubs = any(is_call(y, ("for_each",)) or (isinstance(y, tuple) and y and y[0] == "for") for y in S.subterms(t)) and any(is_call(y, "values") for y in S.subterms(t))
-        adapt = [y[1] for y in S.subterms(t) if is_call(y, EARLY + ("filter",))]
-        run.check("R1", "cwe782|all-functions", allsubs and not adapt, "CWE782 must look at every function (adaptors: %s)" % adapt, F.loc(f["body"]))
+        v782, why782 = iteration_of(f, lambda x: T.is_call(x, "handle_sub") or (x.get("k") == "FnRef" and (x.get("f") or "").endswith("::handle_sub")), "subs")
+        if v782 is None:
+            run.undecided("R1", "cwe782|all-functions", why782, F.loc(f["body"]))
+        else:
+            run.check("R1", "cwe782|all-functions", v782, "CWE782 must look at every function (%s)" % why782, F.loc(f["body"]))
         f = F.fn("handle_sub", mod="checkers::cwe_782")
         t = S.Sym(F).term(f["body"])
         gen = [x for x in S.subterms(t) if is_call(x, "generate_cwe_warning")]
